@@ -514,7 +514,9 @@ static int cabd_read_headers(struct mspack_system *sys,
     if (err || !file->folder) {
       sys->free(file->filename);
       sys->free(file);
-      if (salvage) continue;
+      /* salvage mode skips damaged entries, but a host failure (out of
+       * memory, seek failure) is not damage in the file: report it */
+      if (salvage && err != MSPACK_ERR_NOMEMORY && err != MSPACK_ERR_SEEK) continue;
       return err ? err : MSPACK_ERR_DATAFORMAT;
     }
 
